@@ -10,7 +10,7 @@ from .specs import rdna, rloc
 PROP_FILES = ["Properties/C06.v", "Harness/H01.v"]
 IMPORTS, CASE_TYPE, CHECKER, SHOW, SHARD = c01.IMPORTS, c01.CASE_TYPE, c01.CHECKER, c01.SHOW, c01.SHARD
 RULE = ("small problems (mutation spaces of 1 .. 3000 variants, frozen spaces included) with mixed constraints/objectives/boosts, "
-        "direct calls of resolve_constraints_by_exhaustive_search / optimize_by_exhaustive_search, compared with brute force over "
+        "direct calls of resolve_constraints_by_exhaustive_search / optimize_by_exhaustive_search (half of them after moving the problem to another member of its space), compared with brute force over "
         "the product of the mutation-space choices; non-trivial = the space has at least 2 variants and the start is not already "
         "the answer; distinct by JSON text")
 
@@ -44,6 +44,16 @@ def gen_small(rng):
             os_.append(("CountLetter", kw(letter=rng.choice("ACGT"), boost=boost, location=None)))
         else:
             os_.append(("CountLetterCapped", kw(letter=rng.choice("ACGT"), boost=boost, location=None)))
+    if rng.random() < 0.15:
+        # mixed family: an objective without declared best whose score is positive next to one that
+        # declares its best (the early exit of the exhaustive optimiser must not fire on their sum)
+        os_ = [("CountLetter", kw(letter=rng.choice("ACGT"), boost=rng.choice([1.0, 2.0]), location=None)),
+               rng.choice([("AvoidPattern", kw(pattern=rng.choice(["AA", "CG", "GC", "AN"]), boost=1.0, location=None)),
+                           ("EnforceGCContent", kw(target=rng.choice([0.25, 0.5, 0.75]), window=4, boost=1.0, location=None)),
+                           ("CountLetterCapped", kw(letter=rng.choice("ACGT"), boost=1.0, location=None))])]
+        if os_[0][1] == os_[1][1]:
+            os_ = os_[:1]
+        rng.shuffle(os_)
     cs2, os2 = [], []
     for c in cs:
         if c not in cs2:
@@ -94,6 +104,12 @@ def impl_case(case):
         return Fraction(float(problem.objective_scores_sum())) if problem.objectives else Fraction(0)
     feas = [t for t in variants if feasible(t)]
     best_total = max([total(t) for t in feas]) if feas else None
+    # half of the runs start from another member of the space than the problem's recorded input
+    # (a problem that was edited or partly solved before the direct search is called)
+    import random as _random
+    prng = _random.Random(p["np_seed"])
+    if prng.random() < 0.5 and len(variants) > 1:
+        start = prng.choice(variants)
     problem.sequence = start
     start_feasible = start in feas
     r = solverrec.record_run(problem, entry, p["np_seed"])
@@ -160,6 +176,10 @@ def gen_cases(rng, tier):
         p = gen_small(rng)
         cases.append(("run", json.dumps(p, sort_keys=True), rng.choice(["resolve_exhaustive", "optimize_exhaustive"])))
     return cases, {}
+
+
+def neighbours(case, rng):
+    return problems.neighbours(case, rng)
 
 
 def nontrivial(case, out):
